@@ -35,10 +35,42 @@ def _(c):
     c.returns('str')
 
 
+from pyvc.contracts import native_helper
+
+
+@native_helper
+def message_text_ok(m, text):
+    """C03: the line of a message carries a destruction annotation exactly when the message destroyed an object - that object, and its lifespan
+    (destroy time minus create time, four decimals) when both times are known; C02/C14: target label, name and arguments in order"""
+    body = str(m.obj) + '.' + m.name + '(' + ', '.join(str(a) for a in m.args) + ')'
+    head = '→ ' if m.sent else ''
+    tail = '' if m.sent else ' ↲'
+    note = ''
+    d = m.destroyed_obj
+    if d is not None:
+        note = ' -- ' + str(d) + '.destroyed'
+        if d.create_time is not None and d.destroy_time is not None:
+            note += ' after {:0.4f}s'.format(d.destroy_time - d.create_time)
+    return text == head + body + note + tail
+
+
+def _gen_msg_str(rnd):
+    import core.util as u
+    s = gen.Session(rnd, nconn=1, nmsg=rnd.randint(2, 14))
+    u.color_output = False
+    ms = s.controller.all_messages
+    d = [m for m in ms if m.destroyed_obj is not None]
+    return (rnd.choice(d) if d and rnd.random() < 0.5 else rnd.choice(ms),)
+
+
 @contract('core.wl.message.Message.__str__')
 def _(c):
-    c.trusted('pure and total string builder (its colour behaviour is C17)').interface().pure()
+    c.prop('C03', 'C02')
+    c.bounded('pure and total string builder (assumed at call sites; its colour behaviour is C17): on messages of generated sessions the text is direction mark, target label, '
+              'name, arguments in order, and the destruction annotation exactly on the message that destroyed an object').interface().pure()
     c.returns('str')
+    c.ensures('message_text_ok(self, result)', 'annotated_iff_it_destroyed_an_object_with_that_lifespan', native_only=True)
+    c.native_gen(_gen_msg_str, quick=300, thorough=3000)
 
 
 @contract('core.connection_impl.ConnectionImpl.name')
